@@ -508,7 +508,7 @@ void profile_cli(Gen &g) {
 			if (r.chance(1, 2)) g.seti(e, r.chance(1, 2) ? "p" : "d", r.below(4)); g.seti(e, "S", r.chance(1, 4)); if (r.chance(1, 3)) g.seti(e, "P", r.below(4));
 			g.seti(e, "b", t == 0 && r.chance(1, 2)); g.seti(e, "B", t == 1);
 			if (r.chance(1, 15)) g.seti(e, "missing", 1);
-			if (r.chance(1, 12)) g.seti(e, "longsol", 1 + r.below(400)); if (r.chance(1, 12)) g.seti(e, "hibyte", 1);
+			if (r.chance(1, 12)) g.seti(e, "longsol", 1 + r.below(400)); if (r.chance(1, 8)) g.seti(e, "hibyte", 1 + r.below(2));   /* bytes above 127 / blanks in the input path */
 			if (g.faults && r.chance(1, 8)) { Fault f; f.kind = "io.sol_open_fail"; f.a["e"] = std::to_string(r.below(5)); e.faults.push_back(f); }
 			if (g.faults && r.chance(1, 6)) { Fault f; f.kind = "io.open_fail"; f.a["e"] = std::to_string(r.below(5)); e.faults.push_back(f); }
 			else if (r.chance(1, 4)) { Fault f; f.kind = "io.chunk"; f.a["n"] = std::to_string(r.range(1, 64)); e.faults.push_back(f); }
